@@ -402,6 +402,10 @@ Spec == Init /\ [][Next]_vars
 \* fold the result (loop variables, if-expressions and comparisons of ints) the rule table still
 \* gives it a bounded width.  The invariants are stated separately for expressions with and
 \* without such a node, so that a violation names the mechanism.
+\* A violated invariant of this module says that the RULE TABLE is unsound with respect to the
+\* value semantics below.  It becomes a verdict about pymtl3 only through the harness, which
+\* renders every counterexample state (e, tw) as a real update block `s.o<tw> @= e` and
+\* compares checker and simulator on it (props/c10.py, _spec_to_code).
 IntArithNode(x) == /\ x.k \in {"binop", "shift"} /\ ~TInfo(x).kv
                    /\ \E env \in GoodEnvs : Eval(x.a, env).t = "i" /\ Eval(x.b, env).t = "i"
 RECURSIVE HasIntArith(_)
